@@ -889,7 +889,7 @@ pub fn replay_main(path: &Path, verbose: bool) -> i32 {
     if let Some(e) = &expect {
         known.remove(&e.signature);
     }
-    let res = exec_plan_full(&scratch, &scenario, &plan, &prelude, pref.as_ref(), &known, true, if pref.is_some() { 1800 } else { 60 });
+    let res = exec_plan_full(&scratch, &scenario, &plan, &prelude, pref.as_ref(), &known, true, if pref.is_some() { 240 } else { 60 });
     let _ = fs::remove_dir_all(&scratch);
     if verbose {
         for l in &res.trace {
@@ -1080,7 +1080,7 @@ pub fn orchestrate(a: OrchArgs) -> i32 {
                             }
                             hist.reverse();
                             let mut pr = PreludeRef { seed: a.seed, tier: Some(a.tier), indices: hist };
-                            match exec_plan_full(&scratch, info.name, &plan, &[], Some(&pr), &known, false, 1800).violation {
+                            match exec_plan_full(&scratch, info.name, &plan, &[], Some(&pr), &known, false, 240).violation {
                                 Some(cv) => {
                                     // shortest suffix of the history that still shows it (bisection on the length)
                                     let (mut lo, mut hi) = (0usize, pr.indices.len());
@@ -1089,7 +1089,7 @@ pub fn orchestrate(a: OrchArgs) -> i32 {
                                         attempts += 1;
                                         let mid = (lo + hi) / 2;
                                         let cand = PreludeRef { seed: a.seed, tier: Some(a.tier), indices: pr.indices[pr.indices.len() - mid..].to_vec() };
-                                        match exec_plan_full(&scratch, info.name, &plan, &[], Some(&cand), &known, false, 1800).violation {
+                                        match exec_plan_full(&scratch, info.name, &plan, &[], Some(&cand), &known, false, 240).violation {
                                             Some(v2) if v2.signature == cv.signature => hi = mid,
                                             _ => lo = mid,
                                         }
@@ -1156,7 +1156,7 @@ pub fn orchestrate(a: OrchArgs) -> i32 {
     }
     if let Some((run, target, plan)) = confirmed {
         let (min_plan, tries) = if confirmed_prelude.is_empty() && confirmed_pref.is_none() { minimise(&scratch, scen.as_ref(), info.name, &plan, &target, &known) } else { (plan.clone(), 0) };
-        let final_res = exec_plan_full(&scratch, info.name, &min_plan, &confirmed_prelude, confirmed_pref.as_ref(), &known, true, 1800);
+        let final_res = exec_plan_full(&scratch, info.name, &min_plan, &confirmed_prelude, confirmed_pref.as_ref(), &known, true, 240);
         let (final_plan, final_v) = match final_res.violation {
             Some(fv) if fv.signature == target.signature => (min_plan, fv),
             _ => (plan.clone(), target.clone()),
